@@ -1,4 +1,5 @@
-(* Model of pkg/types: the tables of newPkg (package.go:116-144), MethodsOf (package.go:321-339),
+(* Model of pkg/types: the tables of newPkg (package.go:116-144; the ordering of the method lists, 146-157, is
+   [sort_methods] / [new_pkg_tables]), MethodsOf (package.go:321-339),
    the import table (package.go:86-88) + the registration DFS of Load (load.go:60-79, 114-116),
    SourceDir (package.go:246-267) and Universe.LocateInPackage (load.go:149-159).
    Definitions only.
@@ -161,6 +162,26 @@ Definition methods_of (fx : fixes) (t : tables) (n : nref) (ptr : bool) : list o
                         | Some r => negb (is_pointer (recv_shape fx r))
                         | None => true
                         end) funcs.
+
+(* package.go:146-157 (repair 50ddee1, found by C04: "report the methods of a type in source order instead of map
+   order"): after the loop over Defs every list of the methods map is ordered by (file name, offset) of the
+   method's position.  [pos] is that key as one number (the rank of the position in that order).  sort.Slice is
+   not stable; the model is an insertion sort, and the theorems about the order assume distinct positions. *)
+Section SortMethods.
+  Variable pos : obj -> N.
+  Fixpoint insert_pos (x : obj) (l : list obj) : list obj :=
+    match l with
+    | [] => [x]
+    | y :: r => if N.leb (pos x) (pos y) then x :: l else y :: insert_pos x r
+    end.
+  Definition sort_pos (l : list obj) : list obj := fold_right insert_pos [] l.
+  Definition sort_methods (t : tables) : tables :=
+    mk_tables (t_types t) (t_consts t) (t_funcs t) (map (fun kv => (fst kv, sort_pos (snd kv))) (t_methods t)).
+End SortMethods.
+
+(* the tables newPkg leaves behind: the loop, then the ordering *)
+Definition new_pkg_tables (fx : fixes) (pos : obj -> N) (defs : list obj) : tables :=
+  sort_methods pos (fill_tables fx defs).
 
 (* ------------------------------------------------------------------------------------------ *)
 (* registration (load.go:60-79 and 114-116) and the import tables (package.go:86-88)           *)
